@@ -103,7 +103,7 @@ func main() {
 				if !ok || *verbose {
 					fmt.Printf("%s %-70s %-8s %5dms %s %v\n", mark, o.Name, o.Status, o.Ms, o.Solver, o.Props)
 					if !ok {
-						fmt.Printf("       %s   @ %s\n       query: %s\n", o.Src, m.fset.Position(o.Pos), o.Query)
+						fmt.Printf("       %s   @ %s\n       query: %s\n", truncate(o.Src, 160), m.fset.Position(o.Pos), o.Query)
 					}
 				}
 			}
